@@ -316,9 +316,108 @@ def h_report(kinds: List[int], vals: List[str], text: str, empty_filter: bool, n
     return run(body_report, kinds, vals, text, empty_filter, nres, with_limit)
 
 
+# ------------------------------------------------------------------ the report through the real stack
+QVCF_TABLE = {}
+
+
+import xandikos.vcard as _xvcard  # noqa: E402
+
+
+class QVcf(_xvcard.VCardFile):
+    """vCard members for the web-level report: concrete body tokens whose MEANING (the FN values) is looked up in a
+    table of solver variables - vobject is bypassed (A6), everything else (ReportMethod, resource-type gate, real
+    collection / store listing, content types, get_file, address-data rendering) is the real code."""
+    content_type = "text/vcard"
+
+    def validate(self):
+        pass
+
+    @property
+    def addressbook(self):
+        vals = QVCF_TABLE[b"".join(self.content)]
+        contents, _ = _card(len(vals), vals[0] if vals else "", vals[1] if len(vals) > 1 else "", False, "", False, "", False, "")
+        return type("AB", (), {"contents": contents})()
+
+
+def body_web_report(v1, v2, v3, has_b, undefined, name_present, text, nres, with_limit, depth0):
+    import xandikos.web as Wb
+    from xv.env import mweb
+    table = {b"m1": [v1], b"m2": [v2, v3]}
+    members = {"a.vcf": b"m1", "n.txt": b"plain"}
+    if has_b:
+        members["b.vcf"] = b"m2"
+    pel, spec = _simple_pf(name_present, undefined, text)
+    want = []
+    for n in sorted(members):
+        if n.endswith(".vcf"):
+            vals = table[members[n]]
+            _, model = _card(len(vals), vals[0], vals[1] if len(vals) > 1 else "", False, "", False, "", False, "")
+            if O.prop_filter(spec, model):
+                want.append(n)
+    QVCF_TABLE.clear()
+    QVCF_TABLE.update(table)
+    saved = Wb.VCardFile
+    Wb.VCardFile = QVcf
+    try:
+        mweb.fresh_world({"a.ics": b"xa"}, members)
+        app = mweb.make_app()
+        el = ET.Element("{%s}addressbook-query" % NS)
+        prop = ET.SubElement(el, "{DAV:}prop")
+        ET.SubElement(prop, "{DAV:}getetag")
+        ET.SubElement(prop, "{%s}address-data" % NS)
+        ET.SubElement(el, "{%s}filter" % NS).append(pel)
+        if with_limit:
+            ET.SubElement(ET.SubElement(el, "{%s}limit" % NS), "{%s}nresults" % NS).text = str(nres)
+        r = mweb.call(app, "REPORT", mweb.AB + "/", xml=el, content_type="text/xml",
+                      headers=[("Depth", "0" if depth0 else "1")])
+        # the same report sent to the CALENDAR must not be offered (resource-type gate of ReportMethod)
+        r_cal = mweb.call(app, "REPORT", mweb.CAL + "/", xml=el, content_type="text/xml", headers=[("Depth", "1")])
+    finally:
+        Wb.VCardFile = saved
+    if r_cal.status_class == "2xx":
+        return (False, "offered-on-calendar")
+    if r.kind != "multistatus":
+        return (False, "no-multistatus")
+    got = {}
+    for st in r.statuses:
+        name = st.href[len(mweb.AB) + 1:]
+        if name in got:
+            return (False, "duplicate-response")
+        got[name] = (mweb.prop_text(st, "{%s}address-data" % NS), mweb.prop_text(st, "{DAV:}getetag"))
+    if depth0:
+        # Depth 0 addresses the collection itself, which is not an address object: nothing matches
+        return (got == {}, "depth0")
+    if with_limit:
+        ok = len(got) == min(nres, len(want)) and all(n in want for n in got)
+    else:
+        ok = sorted(got) == want
+    from xv.env import mstore
+    ok = ok and all(got[n] == (members[n].decode("ascii"), '"' + mstore.expected_etag("tree", members[n]) + '"') for n in got)
+    return (ok, ("limited:" if with_limit else "all:") + str(len(got)))
+
+
+def h_web_report(v1: str, v2: str, v3: str, has_b: bool, undefined: bool, name_present: bool, text: str, nres: int,
+                 with_limit: bool, depth0: bool) -> bool:
+    """
+    pre: max(len(v1), len(v2), len(v3), len(text)) <= ctx.b.slen and 0 <= nres <= 3
+    post: _
+    """
+    return run(body_web_report, v1, v2, v3, has_b, undefined, name_present, text, nres, with_limit, depth0)
+
+
 _B = {"quick": {"slen": 3, "nmembers": 2}, "thorough": {"slen": 4, "nmembers": 3}}
 
 HARNESSES = [
+    Harness("web_report", h_web_report, body_web_report, classes=["all:2", "all:1", "all:0", "limited:1", "depth0"], bounds=_B,
+            budget={"quick": 90, "thorough": 420}, twin_budget={"quick": 45, "thorough": 90},
+            describe="REPORT addressbook-query through the real XandikosApp on the model world: an address book holding "
+                     "one or two cards (one with two FN values) and a plain file, prop-filter on FN / NICKNAME (contains or "
+                     "is-not-defined), optional limit, Depth 0 / 1: exactly the matching cards, each once, with their own "
+                     "etag and stored bytes as address-data; never offered on a calendar",
+            encodes=["xandikos.carddav.AddressbookQueryReporter.report", "xandikos.carddav.apply_filter",
+                     "xandikos.carddav.addressbook_from_resource", "xandikos.carddav.AddressDataProperty.get_value_ext",
+                     "xandikos.webdav.ReportMethod.handle", "xandikos.webdav.traverse_resource",
+                     "xandikos.web.StoreBasedCollection.members", "xandikos.web.ObjectResource.get_file"]),
     Harness("collation", h_collation, body_collation,
             classes=[("contains:hit", 0), ("equals:hit", 1), ("starts-with:hit", 2), ("ends-with:miss", 0),
                      ("ends-with:hit", 1)],
